@@ -46,7 +46,7 @@ def tabs(K):
 
 
 def bounds(tier):
-  return dict(classes=list(harness.PE_CLASSES), level_sets=[LEVELS[k] for k in ((1, 2, 3, 4) if tier == 'quick' else (1, 2, 3, 4, 5))],
+  return dict(classes=list(harness.PE_CLASSES), level_sets=[LEVELS[k] for k in ((1, 2, 3, 4) if tier == 'quick' else (1, 2, 3, 4, 5))], level_sets_note='quick: the four-layer set runs for the dry and time-carrying classes only',
               grids='cubic-dealiased M=7 (dry) / (7,8,36,18) (moist, cloud); real + padded fast layout',
               orography=['none', 'degree-2'], tracer_sets=['minimal', 'plus two passive tracers'], reference_profiles='5 (+ an isothermal-stratosphere profile with two equal adjacent layers when K >= 3); every profile also through ONE re-used equation object whose reference_temperature field is rebound',
               state_lattice='depth 2, lmax=1 (depth 3 on one dry configuration%s)' % ('' if tier == 'quick' else ' and on one configuration per class'),
@@ -61,6 +61,8 @@ def units(tier, seed):
     moist = cls.startswith('Moist')
     shape = [7, 8, 36, 18] if moist else list(harness.with_wavenumbers_shape(7, 'cubic'))
     for K in ks:
+      if tier == 'quick' and moist and K == 4:
+        continue      # (cost) four moist layers x 1,035 lattice states x 6 profiles + the moist reference model: thorough tier only
       for impl in ('real', ['fast', 2, True, True]):
         for orog in (False, True):
           for extra in (False, True):
